@@ -83,6 +83,8 @@ CmO(n, suf, bp, ms) == [Cm(n, suf, bp, ms) EXCEPT !.opts = TRUE]
 CmdNames == {<<"", FALSE>>, <<"Other", FALSE>>, <<"AuxCommand", TRUE>>}
 CmdsFull == {Cm(n[1], n[2], bp, ms) : n \in CmdNames, bp \in {"", "oc"}, ms \in {<<M1>>, <<M1, M2>>, <<M3, M4, M5>>}}
             \cup {CmO(n[1], n[2], "", <<M1>>) : n \in CmdNames}
+            \* a command block that declares no method yet (a scaffold): the service exists all the same
+            \cup {Cm(n[1], n[2], bp, <<>>) : n \in CmdNames, bp \in {"", "oc"}}
 CmdsMix == {Cm("", FALSE, "", <<M1>>), Cm("Other", FALSE, "oc", <<M2>>), CmO("Admin", FALSE, "", <<M1>>)}
 
 Su(n, fs) == [name |-> n, fields |-> fs]
@@ -96,7 +98,7 @@ QueryMin == {Q(FALSE, FALSE, "none")}
 QueryFull == QueryMin \cup {Q(TRUE, g, f) : g \in BOOLEAN, f \in {"none", "first", "all"}}
 QueryMix == {Q(FALSE, FALSE, "none"), Q(TRUE, TRUE, "first")}
 
-QuickFocuses == {"name", "key1", "keyseq", "data", "status", "events", "evtypes", "commands", "summaries", "query", "mix"}
+QuickFocuses == {"name", "key1", "keyseq", "keynames", "data", "status", "events", "evtypes", "commands", "summaries", "query", "mix"}
 ThoroughFocuses == QuickFocuses \cup {"mix2"}
 AllFocus == {"all"}
 ClashFocus == {"clash"}
@@ -113,8 +115,8 @@ SummariesMix1 == {Su(<<"short">>, <<"string">>)}
 
 \* "mix": 2 names x (1..2 keys) x (0..1 of everything else) x 2 query settings; "mix2" (thorough): larger pools, two statuses in order
 MCNamePool(f)    == IF f = "name" \/ Big(f) THEN NamesAll ELSE IF Mix(f) THEN NamesTwo ELSE NamesMin
-MCKeyOpts(f)     == IF f = "key1" \/ Big(f) THEN KeysFull ELSE IF f = "keyseq" THEN KeysSeq ELSE IF f = "mix" THEN KeysMix1 ELSE IF f = "mix2" THEN KeysMix ELSE KeysMin
-MCMaxKeys(f)     == IF f = "keyseq" \/ Big(f) THEN 3 ELSE IF Mix(f) THEN 2 ELSE 1
+MCKeyOpts(f)     == IF f = "key1" \/ Big(f) THEN KeysFull ELSE IF f \in {"keyseq", "keynames"} THEN KeysSeq ELSE IF f = "mix" THEN KeysMix1 ELSE IF f = "mix2" THEN KeysMix ELSE KeysMin
+MCMaxKeys(f)     == IF f \in {"keyseq", "keynames"} \/ Big(f) THEN 3 ELSE IF Mix(f) THEN 2 ELSE 1
 MCDataOpts(f)    == IF f = "data" \/ Big(f) THEN DataFull ELSE IF f = "mix" THEN DataMix1 ELSE IF f = "mix2" THEN DataMix ELSE {}
 MCMaxData(f)     == IF f = "data" \/ Big(f) THEN 2 ELSE IF Mix(f) THEN 1 ELSE 0
 MCStatusPool(f)  == IF f = "status" \/ Big(f) THEN StatusFull ELSE IF f \in {"mix2", "query"} THEN StatusTwo ELSE StatusMin
